@@ -458,6 +458,14 @@ func (w *worker) runInstance(in *instance, cells []cell) {
 	ctx := ck.ctx
 	cword := wire.CommandWord(in.args)
 	cmd := cmdName(in.args)
+	// key component for reply-format findings: the command name only
+	kcmd := wire.CommandWord(in.args[:1])
+	if strings.Contains(cmd, " ") && len(in.args) > 1 {
+		kcmd += "_" + wire.CommandWord(in.args[1:2])
+	}
+	if strings.EqualFold(in.args[0], "TIMEOUT") && len(in.args) > 2 {
+		kcmd = "TIMEOUT_" + wire.CommandWord(in.args[2:3])
+	}
 	ck.mu.Lock()
 	skip := ck.quar[cword] && nonFinite(in.args)
 	ck.mu.Unlock()
@@ -582,7 +590,7 @@ func (w *worker) runInstance(in *instance, cells []cell) {
 				// the acknowledgement of a live (FENCE) command
 				cword, suffix = "live-ack", ":"+o.cell.tr.String()
 			} else {
-				cword = wire.CommandWord(in.args)
+				cword = kcmd
 			}
 			ck.report(kind+":"+cword+suffix, fmt.Sprintf("reply to %q (state %s, %s) is malformed: %s; reply: %s", abbreviate(in.args), in.state, o.cell, o.malform, clip(string(o.raw))), rp)
 		}
@@ -592,7 +600,7 @@ func (w *worker) runInstance(in *instance, cells []cell) {
 			ctx.Distinct(in.tm.ID + "|" + in.shape + "|" + in.state + "|" + o.cell.String())
 		}
 	}
-	if in.tm.Flags&wire.FNoCmp != 0 && cmd != "SERVER" && cmd != "INFO" && cmd != "ROLE" {
+	if in.tm.Flags&wire.FNoCmp != 0 && cmd != "SERVER" && cmd != "INFO" && cmd != "ROLE" && cmd != "FOLLOW" && cmd != "SLAVEOF" {
 		return
 	}
 	// 2. same mode, different transports: the same result
@@ -609,7 +617,7 @@ func (w *worker) runInstance(in *instance, cells []cell) {
 				rp := replayBase()
 				rp["a"] = map[string]string{"cell": refR.cell.String(), "reply": clip(refR.resp.String())}
 				rp["b"] = map[string]string{"cell": o.cell.String(), "reply": clip(o.resp.String())}
-				ck.report("transport-disagree:"+cword+":resp:"+o.cell.tr.String(), fmt.Sprintf("RESP-mode replies to %q (state %s) differ between transports %s and %s: %s vs %s", abbreviate(in.args), in.state, refR.cell.tr, o.cell.tr, clip(refR.resp.String()), clip(o.resp.String())), rp)
+				ck.report("transport-disagree:"+kcmd+":resp:"+o.cell.tr.String(), fmt.Sprintf("RESP-mode replies to %q (state %s) differ between transports %s and %s: %s vs %s", abbreviate(in.args), in.state, refR.cell.tr, o.cell.tr, clip(refR.resp.String()), clip(o.resp.String())), rp)
 			}
 		} else {
 			if refJ == nil {
@@ -618,7 +626,7 @@ func (w *worker) runInstance(in *instance, cells []cell) {
 				rp := replayBase()
 				rp["a"] = map[string]string{"cell": refJ.cell.String(), "reply": clip(wire.MaskString(string(refJ.raw)))}
 				rp["b"] = map[string]string{"cell": o.cell.String(), "reply": clip(wire.MaskString(string(o.raw)))}
-				ck.report("transport-disagree:"+cword+":json:"+o.cell.tr.String(), fmt.Sprintf("JSON-mode replies to %q (state %s) differ between transports %s and %s: %s vs %s", abbreviate(in.args), in.state, refJ.cell.tr, o.cell.tr, clip(wire.MaskString(string(refJ.raw))), clip(wire.MaskString(string(o.raw)))), rp)
+				ck.report("transport-disagree:"+kcmd+":json:"+o.cell.tr.String(), fmt.Sprintf("JSON-mode replies to %q (state %s) differ between transports %s and %s: %s vs %s", abbreviate(in.args), in.state, refJ.cell.tr, o.cell.tr, clip(wire.MaskString(string(refJ.raw))), clip(wire.MaskString(string(o.raw)))), rp)
 			}
 		}
 	}
@@ -630,7 +638,7 @@ func (w *worker) runInstance(in *instance, cells []cell) {
 			rp := replayBase()
 			rp["resp_mode"] = map[string]string{"cell": refR.cell.String(), "reply": clip(refR.resp.String())}
 			rp["json_mode"] = map[string]string{"cell": refJ.cell.String(), "reply": clip(wire.MaskString(string(refJ.raw)))}
-			ck.report("disagree:"+cword+":"+comp, fmt.Sprintf("RESP and JSON modes disagree on %q (state %s): %s; RESP %s; JSON %s", abbreviate(in.args), in.state, why, clip(refR.resp.String()), clip(wire.MaskString(string(refJ.raw)))), rp)
+			ck.report("disagree:"+kcmd+":"+comp, fmt.Sprintf("RESP and JSON modes disagree on %q (state %s): %s; RESP %s; JSON %s", abbreviate(in.args), in.state, why, clip(refR.resp.String()), clip(wire.MaskString(string(refJ.raw)))), rp)
 		}
 	}
 }
